@@ -1,8 +1,9 @@
 """C07 — waittill/notify/endon/waitthread: no lost, early or duplicate wake-ups (DESIGN.md 7.4)."""
 import itertools
 import os
+import re
 
-from vlib import schedcheck, schedgen
+from vlib import common, schedcheck, schedgen
 from vlib.common import LEAN
 
 PROPS_MODULE = "MorfuseModel.Props.C07"
@@ -19,6 +20,7 @@ TRUSTED = [
     "hook H1 (injected clock); g++/ASan/UBSan",
 ]
 ASSUME = [
+    "waits of one thread for the same event name on several objects at once (array receiver `($a::$b) waittill n`) are outside the machine; they are compared on the engine only with the reference oracle in tools/vlib/schedgen.py (MultiOracle: the property read literally), a test, not part of any theorem's tie",
     "theorems cover the table layer (registration mirror, notify selects exactly the registered threads once, in order, and clears them; a notify without waiters is a no-op of the machine); the cascade that executes / destroys the selected threads is modelled by Sched.Machine and compared with the engine, not proved",
     "names of one listener are processed in insertion order by the model where the engine uses hash order (not observable in generated programs: it only permutes destructions inside one command)",
 ]
@@ -55,6 +57,61 @@ def exhaustive(quick):
     return cases
 
 
+def oracle_mismatch(lines, exp, got):
+    """first answer line of the engine that differs from the reference oracle, or None"""
+    if len(got) != len(lines):
+        return "engine answered %d lines for %d commands" % (len(got), len(lines))
+    for i, e in enumerate(exp):
+        if e is None:
+            continue
+        m = re.search(r"out=\[([^\]]*)\]", got[i])
+        t = re.search(r"thr=(\d+)", got[i])
+        if not got[i].startswith("ok") or not m or not t:
+            return "line %d `%s`: engine answered `%s`" % (i, lines[i][:30], got[i])
+        out = m.group(1).split("|") if m.group(1) else []
+        if out != e[0]:
+            return ("line %d `%s`: the engine printed [%s], the property requires [%s] (a thread registered on an object under a name "
+                    "proceeds exactly once, at once, when that name is notified there; removing an awaited object destroys the waiter)"
+                    % (i, lines[i][:30], "|".join(out), "|".join(e[0])))
+        if int(t.group(1)) != e[1]:
+            return "line %d `%s`: %s live threads, the property requires %d (%s)" % (i, lines[i][:30], t.group(1), e[1], got[i])
+    return None
+
+
+def engine_only_family(ctx, exe):
+    """threads waiting for one event name on SEVERAL objects at once (array receiver): the machine has no such
+    instruction; the engine's answers are compared with the reference oracle of tools/vlib/schedgen.py"""
+    fam = schedgen.multi_family(ctx.tier == "quick")
+    allines = [l for _, ls, _ in fam for l in ls]
+    impl, crash, info = common.run_lines(exe, [], allines, timeout=300)
+    bad = 0
+    pos = 0
+    for desc, lines, exp in fam:
+        got = impl[pos:pos + len(lines)]
+        pos += len(lines)
+        why = oracle_mismatch(lines, exp, got) if not crash else "batch crashed"
+        if why is None:
+            continue
+        # isolate (cases are self-contained)
+        got1, crash1, info1 = common.run_lines(exe, [], lines, timeout=60)
+        why1 = ("crash: " + crash1) if crash1 else oracle_mismatch(lines, exp, got1)
+        if why1 is None:
+            continue
+        bad += 1
+        if bad <= 3:
+            sig = crash1 if crash1 else "phi:multi-object-waittill"
+            replay = common.save_replay(ctx, {
+                "property": "C07", "kind": "engine-only oracle", "case": desc, "lines": lines, "impl_out": got1,
+                "expected": [None if e is None else {"out": e[0], "thr": e[1]} for e in exp],
+                "script": bytes.fromhex(lines[1].split(" ")[2]).decode(), "crash": crash1, "crash_info": info1 if crash1 else "",
+                "signature": sig, "why": why1, "how_to_replay": "python3 tools/check.py C07 --replay <this file>"})
+            ctx.violations.append({"signature": sig, "replay": replay, "why": why1, "found_input": True})
+    ctx.oblige("engine-only: one thread waiting for the same event on several objects (array receiver), every order of notify / delete, "
+               "engine == reference oracle (%d scenarios)" % len(fam), bad == 0, "%d failing" % bad, reported=True)
+    ctx.stats["multi_object_scenarios"] = len(fam)
+    return bad
+
+
 def check(ctx):
     gens = [("sync", 500, 40000, sync_case),
             ("hub", 150, 8000, lambda r: schedgen.gen_case(r, schedgen.gen_hub_prog(r), ncalls=1)),
@@ -64,8 +121,21 @@ def check(ctx):
             "notifier over one object; programs whose threads are named in `endon` of ONE object under several event names at the same "
             "time (k threads / distinct names / parked on a gate, a timer or paused; the names notified in every order, inside one "
             "command and by host calls between frames; random mixtures with waittill, delete and a second object); non-trivial = at least one accepted command; distinct by SHA-1")
-    return schedcheck.run(ctx, PROP, PROPS_MODULE, PROPS_FILE, gens, TRUSTED, ASSUME, rule, exhaustive=exhaustive)
+    return schedcheck.run(ctx, PROP, PROPS_MODULE, PROPS_FILE, gens, TRUSTED, ASSUME, rule, exhaustive=exhaustive,
+                          extra_engine=engine_only_family)
 
 
 def replay(ctx, obj):
+    if obj.get("kind") == "engine-only oracle":
+        exe = schedcheck.build_engine(ctx)
+        got, crash, info = common.run_lines(exe, [], obj["lines"], timeout=60)
+        exp = [None if e is None else (e["out"], e["thr"]) for e in obj["expected"]]
+        print(obj.get("script", ""))
+        for i, l in enumerate(obj["lines"]):
+            print("> %s\n  impl    : %s\n  required: %s" % (l[:60], got[i] if i < len(got) else "<missing>", exp[i]))
+        why = ("crash: " + crash) if crash else oracle_mismatch(obj["lines"], exp, got)
+        if crash:
+            print(info)
+        print("replay:", ("still fails: " + why) if why else "no failure")
+        return 1 if why else 0
     return schedcheck.replay(ctx, PROP, obj)
